@@ -32,7 +32,7 @@ TRUST = [
     "the candidate order (identity, or float distances with shortest_edges_only=True) only chooses which linking edge is taken; the theorems quantify over EVERY order oracle, and the correspondence run replays the implementation's own choices through the model (order_front)",
     "the edge/plaquette incidence tables are those of coq/Model/Lattice.v (C01/C02 models); the hypothesis tables_agree (plaquette q is a side of edge e iff e is in q's edge list) of the tree and sector theorems is PROVED for the model's tables (C14_model_tables_agree, from C01's LatticeFacts and C02's PlaqTablesFacts) and evaluated (ep_agrees, proved sound) by the extracted model on the implementation's tables for every input",
     "value semantics: 'does not modify its input' is trivially true of the functional model and is checked on the implementation only (array equality before/after, np.shares_memory)",
-    "connected graph with F-1 edges on F nodes is acyclic (standard graph theory) is not proved in Coq; the theorems state connectivity + edge count + distinctness",
+    "acyclicity (C14_tree_acyclic) and 'precisely all parity-compatible sectors on a closed lattice' (C14_sectors_all_parity_compatible) are proved for the model; the harness still enumerates the sectors exhaustively on the implementation",
 ]
 ASSUMPTIONS = ["lattices of C01's input space with >= 1 plaquette whose plaquette graph (plaquettes joined through two-sided edges) is connected; bond variables in {-1,+1}; 0 <= n < 2^(F-1)"]
 
@@ -258,7 +258,8 @@ def evaluate(ctx, cases, label, kmax=9, n_random=6, big_F=200, forced=None, big_
         if use_driver:
             lines.append("span " + line + " " + kl + " " + ser_tables(lat) + " " + tls[0] + " " + tls[1])
         meta.append((trees, tie, use_driver))
-    outs = iter(run_driver_parallel(ctx.exe["c14"], lines))
+    span_outs = run_driver_parallel(ctx.exe["c14"], lines)
+    outs = iter(span_outs)
 
     flip_lines, flip_meta = [], []
     n_exh_big = 0
@@ -405,6 +406,85 @@ def evaluate(ctx, cases, label, kmax=9, n_random=6, big_F=200, forced=None, big_
             if got != rs.get(n):
                 ctx.k_mismatch(f"{label}: n_to_ujk_flipped(n={n}): model {got and got[:10]} implementation {rs.get(n) and rs[n][:10]}", {"lattice": c, "n": n, "u": [int(x) for x in u], "tree": [int(x) for x in tree]})
     res.extra["evaluate_seconds_" + label] = round(time.time() - t_start, 1)
+    if label == "K":
+        # extraction cross-check: a sample of the driver's answers re-derived inside Coq
+        coq_crosscheck(ctx, list(zip(lines, span_outs)) + list(zip(flip_lines, fouts)))
+
+
+# ------------------------------------------------------------------ extraction cross-check (DESIGN 1.3)
+XCHECK_MAX_V = 40
+
+
+def coq_crosscheck(ctx, sent):
+    """sent: (line sent to the c14 driver, its answer) for every command of the K phase.  A small random sample per command
+    (span on lattices with V <= 40; flip; flipall: 8 of the 2^k values of n) is re-derived INSIDE Coq: the line is read back
+    into Gallina literals (the driver's grammar) and every answer line must be what vm_compute gives for the model function
+    the driver evaluates (find_all_plaquettes, ep_agrees, plaquette_spanning_tree under the three candidate orders on the
+    implementation's and on the model's own tables, is_spanning_tree, n_to_ujk_flipped)."""
+    import xcheck as X
+    quick = ctx.tier == "quick"
+    rng = np.random.default_rng([ctx.seed, 14, 99])
+    pools = {"span": [], "flip": [], "flipall": []}
+    for line, o in sent:
+        t = line.split()
+        if "error" not in o and (t[0] != "span" or int(t[2]) <= XCHECK_MAX_V):
+            pools[t[0]].append((t, o))
+    quota = {"span": 6 if quick else 50, "flip": 6 if quick else 40, "flipall": 4 if quick else 30}
+    nl, onl = X.natlist, lambda xs: X.lst(X.onat, xs)
+    otree = lambda toks: "None" if toks[0] == "ERR" else f"Some {onl(onats(toks))}"
+    body = []
+    g = lambda lhs, rhs: body.append(X.goal(lhs, rhs))
+    n_cases = {}
+    for kind in ("span", "flip", "flipall"):
+        pool = pools[kind]
+        idx = sorted(rng.choice(len(pool), size=min(len(pool), quota[kind]), replace=False).tolist()) if pool else []
+        n_cases[kind] = len(idx)
+        for n, i in enumerate(idx):
+            t, o = pool[i]
+            c = Cursor(t[1:])
+            if kind == "span":
+                S, P, Ed, Cr = X.read_lattice(c)
+                keys = c.list(c.z)
+                ep = c.list(lambda: (c.onat(), c.onat()))
+                pes = c.list(lambda: c.list(c.int))
+                itrees = [c.list(c.onat), c.list(c.onat)]
+                L, EP, PES, KEYS = f"L{n}", f"EP{n}", f"PES{n}", f"KEYS{n}"
+                body.append(f"Definition {L} : lattice := {X.lattice_ints(S, P, Ed, Cr)}.")
+                body.append(f"Definition {EP} : list ep_row := {X.lst(X.pair(X.onat, X.onat), ep)}.")
+                body.append(f"Definition {PES} : list (list nat) := {X.lst(nl, pes)}.")
+                body.append(f"Definition {KEYS} : list Z := {X.zlist(keys)}.")
+                if o["mp"][0] != "SKIP":
+                    g(f"option_map (@length plaquette) (find_all_plaquettes {L})", "None" if o["mp"][0] == "ERR" else f"Some {X.nat(o['mp'][0])}")
+                g(f"ep_agrees {EP} {PES}", X.boolean(o["agree"][0] == "1"))
+                for j, itree in enumerate(itrees):
+                    order = "order_id" if j == 0 else f"(order_by_key {KEYS})"
+                    choice = f"(order_front {nl([0 if x is None else x for x in itree])})"      # the driver's replay oracle
+                    if o[f"ttree{j}"][0] != "SKIP":
+                        g(f"plaquette_spanning_tree {order} {EP} {PES}", otree(o[f"ttree{j}"]))
+                    g(f"plaquette_spanning_tree {choice} {EP} {PES}", otree(o[f"ftree{j}"]))
+                    if o[f"mftree{j}"][0] != "SKIP":
+                        g(f"match find_all_plaquettes {L} with None => None | Some ps => plaquette_spanning_tree {choice} (edges_plaquettes {L} ps) (map p_edges ps) end",
+                          otree(o[f"mftree{j}"]))
+                    g(f"match all_some {onl(itree)} with None => false | Some t => is_spanning_tree {EP} {X.nat(len(pes))} t end", X.boolean(o[f"ist{j}"][0] == "1"))
+            elif kind == "flip":
+                nn, u, tree = c.z(), c.list(c.z), c.list(c.int)
+                g(f"n_to_ujk_flipped {X.z(nn)} {X.zlist(u)} {nl(tree)}",
+                  "None" if o["flip"][0] == "ERR" else "Some " + X.zlist([unhx(x) for x in o["flip"][1:]]))
+            else:
+                u, tree = c.list(c.z), c.list(c.int)
+                toks = o["flipall"]
+                for nn in sorted(rng.choice(len(toks), size=min(len(toks), 8), replace=False).tolist()):
+                    tok = toks[nn]
+                    if "?" in tok:
+                        continue      # a bond that is neither +1 nor -1 is not written out by the driver
+                    want = "None" if tok == "ERR" else "Some " + X.zlist([] if tok == "." else [1 if ch == "+" else -1 for ch in tok])
+                    g(f"n_to_ujk_flipped {X.z(nn)} {X.zlist(u)} {nl(tree)}", want)
+            if not c.done():
+                raise RuntimeError(f"extraction cross-check: could not read back the whole {kind} line")
+    res = ctx.res
+    res.extra["extraction_crosscheck_goals_vm_compute"] = X.compile_goals("c14", "Model.Lattice Model.Flux Model.SpanTree", body, "c14")
+    res.extra["extraction_crosscheck_cases"] = n_cases
+    res.extra["extraction_crosscheck_wall_s"] = X.LAST_WALL
 
 
 RULE = ("lattice families of DESIGN 1.5 (C01's input space) plus small periodic Voronoi lattices (2..4 seeds quick, ..14 thorough) and their cuts, restricted to lattices without self-loops, "
